@@ -161,3 +161,13 @@ class Stopwatch:
 
 def log(*a):
     print(*a, file=sys.stderr, flush=True)
+
+
+def to_frac(x):
+    """float -> exact Fraction; an infinity becomes a huge value of its own (never equal to a finite expectation)"""
+    import math
+    from fractions import Fraction
+    x = float(x)
+    if math.isinf(x):
+        return Fraction(10) ** 400 if x > 0 else -(Fraction(10) ** 400)
+    return Fraction(x)
